@@ -65,6 +65,7 @@ def run(rep, tier):
         linebreak(rep, c, sfx)
         leaftest(rep, c, sfx)
         lenstep(rep, c, sfx)
+        scanbound(rep, c, sfx)
         if cfg == "pestall":
             serialspan(rep, c, sfx)
 
@@ -910,3 +911,63 @@ def serialspan(rep, c, sfx):
                             "`[1]` the inner list of `value(0,3)` is then dumped as [0,2]" % (
                                 ", ".join(x.split("::")[-1] + "()" for x in iterating) or "something other than the window bounds",
                                 sorted(fields)))
+
+
+# ------------------------------------------------------------------ SCANBOUND
+
+def scanbound(rep, c, sfx):
+    r = rep.rule("C04.SCANBOUND" + sfx, 1,
+                 "a loop of FlatPairs that moves one cursor of the window over tokens (`self.start += 1` / "
+                 "`self.end -= 1` until a Start token is found) stops at the OTHER cursor: its condition compares "
+                 "self.start with self.end.  Bounded by anything else (the queue length) the cursor comes to rest outside "
+                 "the window, and `tokens()` / `len()` of what is left compute `end - start` from crossed cursors")
+    FP = "pest::iterators::flat_pairs::FlatPairs"
+    n = 0
+    for b in c.bodies:
+        if not str(b.get("impl_self") or "").startswith(FP) or b.get("body") is None or b.get("exp"):
+            continue
+        for lp in walk(b["body"]):
+            if kind(lp) != "Loop":
+                continue
+            moved = set()
+            for x in hirq.walk_no_closures(lp):
+                if kind(x) == "AssignOp":
+                    pl = hirq.place(x["l"])
+                    if pl and pl[0] == "self" and pl[2] in (["start"], ["end"]):
+                        moved.add(pl[2][0])
+            if len(moved) != 1:
+                continue
+            n += 1
+            cursor = moved.pop()
+            other = "end" if cursor == "start" else "start"
+            key = "%s:%s" % (b["name"], cursor)
+            r.instance(key, where(lp))
+            # the conditions under which the loop goes on: the `if` heading a while-loop's body, `if .. { break }` tests
+            bounded = False
+            for x in hirq.walk_no_closures(lp):
+                if kind(x) == "Binary" and x["op"] in ("<", "<=", ">", ">=", "!=", "=="):
+                    pls = [hirq.place(x["l"]), hirq.place(x["r"])]
+                    names = sorted(p[2][0] for p in pls if p and p[0] == "self" and len(p[2]) == 1)
+                    if names == ["end", "start"]:
+                        bounded = True
+            if not bounded:
+                r.violation(key, where(lp),
+                            "the loop of FlatPairs::%s that moves self.%s is not bounded by self.%s: after the last pair "
+                            "of a window that ends before the end of the queue the cursor rests beyond the window, and "
+                            "Tokens::len() of the remainder underflows (or reports ~usize::MAX)" % (b["name"], cursor, other))
+        # the iterator spelling of the same scan: `self.start = (self.start + 1..self.end).find(..).unwrap_or(self.end)`
+        for x in walk(b["body"]):
+            if kind(x) == "Assign":
+                pl = hirq.place(x["l"])
+                if pl and pl[0] == "self" and pl[2] in (["start"], ["end"]) and any(
+                        kind(y) == "MethodCall" and y["m"] in ("find", "rfind", "position", "rposition") for y in walk(x["r"])):
+                    n += 1
+                    key = "%s:%s:search" % (b["name"], pl[2][0])
+                    r.instance(key, where(x))
+                    flds = set(p[2][0] for p in (hirq.place(y) for y in walk(x["r"]) if kind(y) == "Field")
+                               if p and p[0] == "self" and len(p[2]) == 1)
+                    if not {"start", "end"} <= flds:
+                        r.violation(key, where(x), "the search that moves self.%s in FlatPairs::%s is not bounded by the "
+                                    "other cursor of the window" % (pl[2][0], b["name"]))
+    if n == 0:
+        r.lost("cursor-moving scans of FlatPairs (next_start and next_start_from_end were confirmed by hand)")
